@@ -82,6 +82,8 @@ class Gen:
     def __init__(self, rng, w):
         self.rng, self.w = rng, w
         self.wa = w.get("workarounds", 1.0) > 0
+        # workarounds kept even when workarounds == 0 (one name per still-open finding)
+        self.keep = set(w.get("keep_workarounds", ()))
         self.seq_id = 0
         self.choice_id = 0
         self.label_id = 0
@@ -412,7 +414,10 @@ class Gen:
         when the flow also has a labelled gather (finding c01-bare-gather-after-bracket-choice)"""
         if self.p("gather_label"):
             return [["gather", self.new_label(sc["place"])]]
-        if not self.wa and self.rng.random() < 0.5:
+        # (finding c01-label-path-after-threaded-gather: a bare `-` after a bracket-less choice block in a
+        # stitch makes this compiler nest the weave one container deeper than its label paths assume)
+        bare_ok = not self.wa and not ("bare_gather_in_stitch" in self.keep and "." in sc["place"])
+        if bare_ok and self.rng.random() < 0.5:
             return [["gather", None]]
         return [["gather", None], ["line", [["t", self.words()]] + self.inline(sc)[1:], self.tags(), None]]
 
